@@ -50,13 +50,16 @@ class Adt:
 
 
 class Vec:
-    __slots__ = ("elem",)
+    """a vector of any length whose elements are all the same symbolic element; `cut` records what was done to its length
+    (None: as long as the vector it was made from; ('take', k): at most k elements of it; 'skip' / 'filter': some elements dropped)"""
+    __slots__ = ("elem", "cut")
 
-    def __init__(self, elem):
+    def __init__(self, elem, cut=None):
         self.elem = elem
+        self.cut = cut
 
     def __repr__(self):
-        return f"[each: {self.elem!r}]"
+        return f"[each: {self.elem!r}]" + (f" cut {self.cut}" if self.cut else "")
 
 
 class Bits:
@@ -462,8 +465,20 @@ class Interp:
                 recv = self.force(recv)
                 f = self.ev(m["args"][0], env)
                 if isinstance(recv, Vec):
-                    return Vec(self.apply(f, [recv.elem]))
+                    return Vec(self.apply(f, [recv.elem]), recv.cut)
                 raise Shape(f"map over {recv!r}")
+            if p in ("std::iter::traits::iterator::Iterator::take", "std::iter::traits::iterator::Iterator::skip", "std::iter::traits::iterator::Iterator::step_by"):
+                recv = self.force(recv)
+                k = self.ev(m["args"][0], env)
+                kv = k.val if isinstance(k, Const) else (k if isinstance(k, int) else None)
+                if isinstance(recv, Vec):
+                    if name == "take" and isinstance(kv, int):
+                        cut = ("take", min(kv, recv.cut[1]) if isinstance(recv.cut, tuple) else kv) if recv.cut is None or isinstance(recv.cut, tuple) else recv.cut
+                        return Vec(recv.elem, cut)
+                    if name == "skip" and kv == 0 or name == "step_by" and kv == 1:
+                        return recv
+                    return Vec(recv.elem, name)
+                raise Shape(f"{name} over {recv!r}")
             if p == "std::option::Option::<T>::map":
                 recv = self.force(recv)
                 f = self.ev(m["args"][0], env)
@@ -627,6 +642,9 @@ class Interp:
                     return d
             return None
         if isinstance(a2, Vec):
+            if a2.cut != b2.cut:
+                what = f"only the first {a2.cut[1]} elements are kept" if isinstance(a2.cut, tuple) and a2.cut[0] == "take" else f"elements are dropped ({a2.cut})"
+                return f"{where}: the vector does not keep its length: {what} (a longer vector does not survive)"
             return self.same(a2.elem, b2.elem, where + "[*]")
         if isinstance(a2, Bits):
             if a2.mask == b2.mask and ((a2.base is None and b2.base is None) or (a2.base is not None and b2.base is not None and a2.base.path == b2.base.path and a2.keep == b2.keep)):
